@@ -77,7 +77,9 @@ fn slice_sweep(t: &mut Tctx, gb: &mut GuardBuf, algos: &[CrcAlgo], shape: &Shape
     let want = ref_frame(f, algos, plain);
     let l = want.len();
     let label = f.label(algos);
-    let caps: Vec<usize> = if l + 2 <= 1200 { (0..=l + 2).collect() } else { vec![0, 1, l - 1, l, l + 1] };
+    // every capacity 0..=L+2, plus roomy buffers (the rest of the buffer must stay untouched)
+    let mut caps: Vec<usize> = if l + 2 <= 1200 { (0..=l + 2).collect() } else { vec![0, 1, l - 1, l, l + 1] };
+    caps.extend_from_slice(&[l + 7, l + 8, l + 9, l + 16, l + 33, l + 64]);
     for c in caps {
         if t.cfg.expired() {
             return;
